@@ -62,6 +62,7 @@ struct Teakra::Impl {
         dma.Reset();
         btdmp[0].Reset();
         btdmp[1].Reset();
+        mmio.Reset();
         processor.Reset();
     }
 };
